@@ -371,9 +371,19 @@ def run(tier, seed):
             levels.setdefault(group, []).append(len(nxt))
         states += len(seen)
         samples.append({'group': group, 'history': list(sorted(seen.values(), key=lambda x: (-len(x), x))[0])})
+    # RIB maintenance on: two sends in two worker threads / a send and a received UPDATE (vf/threads.py, vf/concurrent.py)
+    from .. import concurrent
+    cts = concurrent.tasks(PROP, tier)
+    classes = set()
+    for t, (n, viol, cl) in zip(cts, explore.pmap(concurrent.task3, cts, chunk=1)):
+        transitions += n
+        classes |= cl
+        for k, det in viol:
+            col.add(k, {x: det[x] for x in det if x in ('specs', 'start', 'cuts', 'label', 'bound', 'cold')}, det)
     explore.close_pool()
     n_new, n_known, summary = col.finish('c19-history')
     cov = {
+        'thread_interleavings': concurrent.coverage(classes)[1],
         'states': states, 'transitions': transitions, 'traces_validated_against_impl': transitions,
         'samples': samples, 'max_depth': depth, 'new_states_per_level': levels,
         'explanation': 'operation alphabets per family group (received announce / withdraw / announce+withdraw / re-announce same and '
@@ -391,6 +401,9 @@ def replay(path):
     import json
     d = json.load(open(path))
     w = d['witness']
+    if '|threads|' in d['key']:
+        from .. import concurrent
+        return concurrent.cli_replay(PROP, d)
     a, b = report.twice(run_history, w['group'], tuple(w['history']))
     if repr(a) != repr(b):
         print('HARNESS-ERROR: replay is not deterministic')
